@@ -64,6 +64,9 @@ Sem/ScnObj.vos Sem/ScnObj.vok Sem/ScnObj.required_vos: Sem/ScnObj.v Core/Base.vo
 Sem/ClassModel.vo Sem/ClassModel.glob Sem/ClassModel.v.beautified Sem/ClassModel.required_vo: Sem/ClassModel.v Core/Base.vo Py/Mro.vo Sem/Show.vo
 Sem/ClassModel.vio: Sem/ClassModel.v Core/Base.vio Py/Mro.vio Sem/Show.vio
 Sem/ClassModel.vos Sem/ClassModel.vok Sem/ClassModel.required_vos: Sem/ClassModel.v Core/Base.vos Py/Mro.vos Sem/Show.vos
+Sem/InvModel.vo Sem/InvModel.glob Sem/InvModel.v.beautified Sem/InvModel.required_vo: Sem/InvModel.v Core/Base.vo Sem/Show.vo
+Sem/InvModel.vio: Sem/InvModel.v Core/Base.vio Sem/Show.vio
+Sem/InvModel.vos Sem/InvModel.vok Sem/InvModel.required_vos: Sem/InvModel.v Core/Base.vos Sem/Show.vos
 Sem/ScnSwitch.vo Sem/ScnSwitch.glob Sem/ScnSwitch.v.beautified Sem/ScnSwitch.required_vo: Sem/ScnSwitch.v Core/Base.vo Core/Prog.vo Sem/Interp.vo Sem/Show.vo Gen/State.vo
 Sem/ScnSwitch.vio: Sem/ScnSwitch.v Core/Base.vio Core/Prog.vio Sem/Interp.vio Sem/Show.vio Gen/State.vio
 Sem/ScnSwitch.vos Sem/ScnSwitch.vok Sem/ScnSwitch.required_vos: Sem/ScnSwitch.v Core/Base.vos Core/Prog.vos Sem/Interp.vos Sem/Show.vos Gen/State.vos
@@ -160,3 +163,9 @@ Thm/C11/Inherit.vos Thm/C11/Inherit.vok Thm/C11/Inherit.required_vos: Thm/C11/In
 Props/C11.vo Props/C11.glob Props/C11.v.beautified Props/C11.required_vo: Props/C11.v Core/Base.vo Py/Mro.vo Sem/Show.vo Sem/ClassModel.vo Gen/ObjPin.vo Thm/C11/Inherit.vo
 Props/C11.vio: Props/C11.v Core/Base.vio Py/Mro.vio Sem/Show.vio Sem/ClassModel.vio Gen/ObjPin.vio Thm/C11/Inherit.vio
 Props/C11.vos Props/C11.vok Props/C11.required_vos: Props/C11.v Core/Base.vos Py/Mro.vos Sem/Show.vos Sem/ClassModel.vos Gen/ObjPin.vos Thm/C11/Inherit.vos
+Thm/C05/Invariants.vo Thm/C05/Invariants.glob Thm/C05/Invariants.v.beautified Thm/C05/Invariants.required_vo: Thm/C05/Invariants.v Core/Base.vo Sem/Show.vo Sem/InvModel.vo
+Thm/C05/Invariants.vio: Thm/C05/Invariants.v Core/Base.vio Sem/Show.vio Sem/InvModel.vio
+Thm/C05/Invariants.vos Thm/C05/Invariants.vok Thm/C05/Invariants.required_vos: Thm/C05/Invariants.v Core/Base.vos Sem/Show.vos Sem/InvModel.vos
+Props/C05.vo Props/C05.glob Props/C05.v.beautified Props/C05.required_vo: Props/C05.v Core/Base.vo Sem/Show.vo Sem/InvModel.vo Gen/ObjPin.vo Thm/C05/Invariants.vo
+Props/C05.vio: Props/C05.v Core/Base.vio Sem/Show.vio Sem/InvModel.vio Gen/ObjPin.vio Thm/C05/Invariants.vio
+Props/C05.vos Props/C05.vok Props/C05.required_vos: Props/C05.v Core/Base.vos Sem/Show.vos Sem/InvModel.vos Gen/ObjPin.vos Thm/C05/Invariants.vos
